@@ -23,7 +23,7 @@ RULE = ("Hypothesis draws a small lattice (rank 1-3, prod(sizes) <= 36; "
         "feasible kernel for the fixed-point clause); distinct by SHA-1 of the "
         "case.")
 NT_FLOOR = 0.5
-BUDGET = {"quick": 45, "thorough": 900}
+BUDGET = {"quick": 60, "thorough": 900}
 TECHNIQUE = ("property-based testing (Hypothesis): differential against a "
              "KKT-certified float64 QP reference (NNLS / Lawson-Hanson LDP) at "
              "finite iteration horizons")
@@ -61,7 +61,10 @@ def _empty_cfg(sizes):
 def _single_family_cfg(draw, fam, maxw):
   need3 = fam in ("unimod", "junimod")
   rank = draw(st.integers(1 if fam in ("mono", "unimod", "junimod") else 2, 3))
-  sizes = [draw(st.integers(3 if need3 else 2, 4)) for _ in range(rank)]
+  # pair families get sizes from {2,2,3,4}: a size-2 dimension next to a
+  # larger one exercises the even/odd constraint-group bookkeeping.
+  sizes = [draw(st.integers(3, 4)) if need3 else
+           draw(st.sampled_from([2, 2, 3, 4])) for _ in range(rank)]
   while int(np.prod(sizes)) > maxw:
     i = int(np.argmax(sizes))
     if sizes[i] > (3 if need3 else 2):
@@ -103,7 +106,9 @@ def _single_family_cfg(draw, fam, maxw):
 @st.composite
 def _lattice_case(draw, tier):
   maxw = 36 if tier == "quick" else 81
-  fam = draw(st.sampled_from(list(ALL) + ["combo"] * 5))
+  fam = draw(st.sampled_from(
+      ["mono", "unimod", "ew", "ew", "ew", "tz", "tz", "mdom", "mdom", "rdom",
+       "jmono", "jmono", "junimod"] + ["combo"] * 5))
   if fam == "combo":
     sizes = draw(S.lattice_sizes(max_rank=3, min_rank=2,
                                  max_size=4 if tier == "quick" else 5,
